@@ -52,7 +52,9 @@ def _vm_vis(evs):
     for e in evs:
         if e[0] == "J":
             continue
-        if e[0] == "G":
+        if e[0] == "E":
+            out.append("VX")
+        elif e[0] == "G":
             out.append("VG %s%%nat" % e[1:])
         else:
             t, f = e[1:].split(":")
